@@ -14,7 +14,6 @@ import (
 	"testing"
 	"time"
 
-	"github.com/go-jose/go-jose/v4"
 	"github.com/go-jose/go-jose/v4/jwt"
 )
 
@@ -107,7 +106,7 @@ func (w *vWorld) signedTokens(r vResp) int {
 	n := 0
 	hay := string(r.Body) + " " + r.Header.Get("Location")
 	for _, cand := range vJWTRe.FindAllString(hay, -1) {
-		tok, err := jwt.ParseSigned(cand, []jose.SignatureAlgorithm{jose.RS256, jose.ES256, jose.EdDSA})
+		tok, err := jwt.ParseSigned(cand, vAllAlgs)
 		if err != nil {
 			continue
 		}
